@@ -1,6 +1,76 @@
-(* History-level monitors (specifications evaluated on the implementation's
-   observations).  Filled in per type. *)
+(* Property-level monitors: the extracted Coq specifications (boolean deciders,
+   spec functions) evaluated on the IMPLEMENTATION's inputs and outputs.  A line
+     MONITOR prop=<id> case=<case> cmd=<n> what=<text>
+   is printed for every violation. *)
+open Model
 open Driver
+
+let violations = ref 0
+let checks : (string, int) Hashtbl.t = Hashtbl.create 16
+let cur = ref ("", "")
+let report prop what =
+  incr violations;
+  if !violations <= 60 then Printf.printf "MONITOR prop=%s case=%s cmd=%s what=%s\n" prop (fst !cur) (snd !cur) what
+let count prop = Hashtbl.replace checks prop (1 + (try Hashtbl.find checks prop with Not_found -> 0))
+let expect prop what b = count prop; if not b then report prop what
+
 let on_case (_id : string) (_ty : string) (_line : string) = ()
-let on_event (_case : string) (_cmd : string) (_sx : sx) = ()
-let finish () = ()
+
+(* ---- C10: vector clock laws on the implementation's own results *)
+let c10_call fn a =
+  let p = "C10" in
+  match fn, a with
+  | "cmp", [x; y; r] ->
+      let x = vc_sx x and y = vc_sx y in
+      if vwfb x && vwfb y then
+        expect p (Printf.sprintf "partial_cmp(%s,%s) is %s but the pointwise order says %s" (show_vc x) (show_vc y) (atom r) (show_ord (spec_cmp x y)))
+          (ord_sx r = spec_cmp x y)
+  | "concurrent", [x; y; r] ->
+      let x = vc_sx x and y = vc_sx y in
+      if vwfb x && vwfb y then
+        expect p (Printf.sprintf "concurrent(%s,%s)=%s" (show_vc x) (show_vc y) (atom r)) (bool_sx r = (spec_cmp x y = None))
+  | "merge", [x; y; r] ->
+      let x = vc_sx x and y = vc_sx y and r = vc_sx r in
+      if vwfb x && vwfb y then
+        expect p (Printf.sprintf "merge(%s,%s)=%s is not the pointwise max / stores a zero" (show_vc x) (show_vc y) (show_vc r)) (spec_merge_ok x y r)
+  | "glb", [x; y; r] ->
+      let x = vc_sx x and y = vc_sx y and r = vc_sx r in
+      if vwfb x && vwfb y then
+        expect p (Printf.sprintf "glb(%s,%s)=%s is not the pointwise min / stores a zero" (show_vc x) (show_vc y) (show_vc r)) (spec_glb_ok x y r)
+  | ("reset" | "clone_without"), [x; y; r] ->
+      let x = vc_sx x and y = vc_sx y and r = vc_sx r in
+      if vwfb x then
+        expect p (Printf.sprintf "reset_remove(%s,%s)=%s does not keep exactly the strictly newer entries" (show_vc x) (show_vc y) (show_vc r)) (spec_reset_ok x y r)
+  | "intersection", [x; y; r] ->
+      let x = vc_sx x and y = vc_sx y and r = vc_sx r in
+      if vwfb x then
+        expect p (Printf.sprintf "intersection(%s,%s)=%s does not keep exactly the equal entries" (show_vc x) (show_vc y) (show_vc r)) (spec_intersection_ok x y r)
+  | "apply", [c; d; r] ->
+      let c = vc_sx c and d = dot_sx d and r = vc_sx r in
+      if vwfb c then
+        expect p (Printf.sprintf "apply(%s,%s)=%s is not max on the dot's actor" (show_vc c) (show_dot d) (show_vc r)) (spec_apply_ok c d r)
+  | "validate_op", [c; d; r] ->
+      let c = vc_sx c and d = dot_sx d in
+      expect p (Printf.sprintf "validate_op(%s,%s)=%s" (show_vc c) (show_dot d) (show_sx r)) (spec_validate_ok c d (range_sx r))
+  | "inc", [c; x; d] ->
+      let c = vc_sx c in
+      expect p (Printf.sprintf "inc(%s,%s)=%s is not the next counter" (show_vc c) (atom x) (show_sx d)) (spec_inc_ok c (n_sx x) (dot_sx d))
+  | _ -> ()
+
+let on_call (case : string) (cmd : string) (f : string) (a : sx list) =
+  cur := (case, cmd);
+  let pre, fn = match String.index_opt f '.' with
+    | Some i -> (String.sub f 0 i, String.sub f (i + 1) (String.length f - i - 1))
+    | None -> (f, "") in
+  try
+    (match pre with
+     | "vclock" -> c10_call fn a
+     | _ -> ())
+  with Bad m -> report "DRIVER" ("monitor error: " ^ m)
+
+let on_event (case : string) (cmd : string) (_sx : sx) = cur := (case, cmd)
+
+let finish () =
+  let l = Hashtbl.fold (fun k v acc -> (k, v) :: acc) checks [] |> List.sort compare in
+  Printf.printf "MONITORS violations=%d %s\n" !violations
+    (String.concat " " (List.map (fun (k, v) -> Printf.sprintf "%s=%d" k v) l))
